@@ -16,7 +16,7 @@ ASSUMPTIONS = [
     "warnings.warn is recorded as a ghost event",
 ]
 NOT_COVERED = ["'it sees the same scheduling and data as a current-version simulator': follows from the adapters forwarding every other request unchanged (proved) -- not an end-to-end statement", "the default type 'time-based' for a missing type is set in SimRunner.__init__ (not under contract; covered by the bounded end-to-end harness)"]
-LEVEL_TEXT = 'V3ToV2Adapter.send: a step request is forwarded without max_advance, EVERY other request unchanged, reply passed back; V2ToV1Adapter.send: setup_done is answered locally and not forwarded, every other request unchanged; init_and_get_adapter: ScenarioError IFF init failed or version >= 4 or the configured api_version differs, otherwise exactly the adapters required by the version (< 2.2: both, < 3: V3ToV2 only, else none), warning iff adapted without explicit version -- for version lists of arbitrary length. String parsing and LocalProxy.init by bounded stand-ins.'
+LEVEL_TEXT = 'V3ToV2Adapter.send: a step request is forwarded without max_advance, EVERY other request unchanged, reply passed back; V2ToV1Adapter.send: setup_done is answered locally and not forwarded, every other request unchanged; init_and_get_adapter: ScenarioError IFF init failed or version >= 4 or the configured api_version differs, otherwise exactly the adapters required by the version (< 2.2: both, < 3: V3ToV2 only, else none), warning iff adapted without explicit version -- for version lists of arbitrary length. String parsing and LocalProxy.init by bounded stand-ins. V3ToV2Adapter.meta keeps a declared type and defaults only a missing one; SimRunner\'s request wrappers send exactly the documented request shapes.'
 DESIGN_REF = "DESIGN.md section 8 (C15)"
 LEVEL_NOTE = 'Function-level proofs for the adapters and the version decision; bounded stand-ins for parsing / signature inspection (coverage.bounded). Trusted: pyvc encoder, z3/cvc5.'
 TECHNIQUE = "contract-based deductive verification (adapters' send, version logic of init_and_get_adapter); bounded stand-ins for string parsing and LocalProxy.init"
